@@ -127,9 +127,11 @@ def drive(sc):
 def model_runs(tier):
     if tier == "quick":
         return [{"module": "MC_C01"}]
-    return [{"module": "MC_C01", "constants": {"RSet": "{1, 2, 3, 4}", "VCSet": "{1, 2, 3, 4}", "WSet": "{1, 2, 3, 4, 5}",
-                                               "OSet": "{1, 2, 3}", "EstSet": "{1, 2, 3, 4, 5, 6, 7, 8}"},
-             "workers": 1, "heap": "12g", "timeout": 7200}]
+    return [{"module": "MC_C01", "constants": {"RSet": "{1, 2, 3, 4}", "VCSet": "{1, 2}", "WSet": "{1, 2, 3, 4, 5}",
+                                               "OSet": "{2, 3}", "EstSet": "{1, 2, 3, 6}"},
+             "workers": 1, "heap": "12g", "timeout": 7200},
+            {"module": "MC_C01", "constants": {"RSet": "{2, 3}", "VCSet": "{3, 4}", "WSet": "{3, 5}",
+                                               "OSet": "{1}", "EstSet": "{4, 5, 7, 8}"}, "workers": 1, "heap": "8g"}]
 
 
 def extra_scenarios(tier, seed):
